@@ -408,12 +408,46 @@ type Conn struct {
 	seen     int
 
 	// stdio
-	in     *io.PipeWriter
+	in     *stdinPipe
 	out    *LockedBuffer
 	cancel context.CancelFunc
 	done   chan error
 	lines  int
 }
+
+// stdinPipe is the write end of a stdio server's input. The pipe is synchronous: a server that stops reading would block the
+// writer for ever, so every write gets a deadline; once one has missed it the pipe counts as stuck and is closed.
+type stdinPipe struct {
+	pw    *io.PipeWriter
+	stuck atomic.Bool
+}
+
+var errStdinStuck = errors.New("the server does not read its input any more")
+
+func (s *stdinPipe) Write(p []byte) (int, error) {
+	if s.stuck.Load() {
+		return 0, errStdinStuck
+	}
+	type res struct {
+		n   int
+		err error
+	}
+	done := make(chan res, 1)
+	go func() { n, err := s.pw.Write(p); done <- res{n, err} }()
+	select {
+	case r := <-done:
+		return r.n, r.err
+	case <-time.After(Patience() + 5*time.Second):
+		s.stuck.Store(true)
+		s.pw.CloseWithError(errStdinStuck)
+		return 0, errStdinStuck
+	}
+}
+
+func (s *stdinPipe) Close() error { return s.pw.Close() }
+
+// Stuck reports whether a write has waited in vain for the server to read.
+func (s *stdinPipe) Stuck() bool { return s.stuck.Load() }
 
 // InitRequest is the raw initialize request the harness sends.
 func InitRequest(id string, version string) []byte {
@@ -445,7 +479,7 @@ func (w *World) Dial() (*Conn, error) {
 		}
 	case ModeStdio:
 		pr, pw := io.Pipe()
-		c.in, c.out = pw, NewLockedBuffer()
+		c.in, c.out = &stdinPipe{pw: pw}, NewLockedBuffer()
 		ctx, cancel := context.WithCancel(context.Background())
 		c.cancel = cancel
 		c.done = make(chan error, 1)
